@@ -484,9 +484,18 @@ def check_scenario(arg):
         if prop == 'C18':
             allowed = {sc.state_file, '/p/.zinoma'}
             viol = []
-            for p in p1 + p2:
+            # a third invocation that finds a record file which may or may not decode (truncated, corrupted, foreign)
+            rec = tr.merged_record(p1)
+            p3 = tr.run_phase(3, (z3.BitVecVal(FILE, 2), z3.And(z3.Bool('prior_record_decodes'), rec[1] if not isinstance(rec[1], bool) else z3.BoolVal(rec[1])), rec[2]), which=2, crash=False)
+            out['paths'] += len(p3)
+            for p in p1 + p2 + p3:
                 for k, d in p.effects:
-                    if k == 'fs' and d.get('path') not in allowed:
+                    if k != 'fs':
+                        continue
+                    foreign = d.get('path') not in allowed or (d.get('src') is not None and d.get('src') not in allowed)
+                    # the work directory may be created, never removed or replaced
+                    whole_dir = d.get('path') == '/p/.zinoma' and d.get('op') not in ('create_dir',)
+                    if foreign or whole_dir:
                         viol.append((p, z3.BoolVal(True)))
             oblige('only_own_record_is_written', viol, 'incremental::run mutates nothing but the target\'s own state file and the work directory')
         out['solver_s'] = round(solver_s, 1)
